@@ -266,6 +266,10 @@ impl ModuleRef {
         let stages = self.num_sim_start_stages();
         for stage in 0..stages {
             self.at_sim_start(stage)?;
+            // a panic that was caught has deactivated the module: no further stages
+            if !self.ctx.active.load(SeqCst) {
+                break;
+            }
         }
         Ok(())
     }
